@@ -135,6 +135,16 @@ pub fn years_grid() -> Vec<i32> {
     v.extend_from_slice(&[i32::MIN, i32::MIN + 1, -10000, 10002, 65535, 65536, 65537, i32::MAX - 1, i32::MAX]);
     v
 }
+pub fn months_grid_wide() -> Vec<u32> {
+    let mut v: Vec<u32> = (0..=70).collect();
+    v.extend_from_slice(&[255, 256, 257, 258, 65535, 65536, 65537, u32::MAX - 1, u32::MAX]);
+    v
+}
+pub fn days_grid_wide() -> Vec<u32> {
+    let mut v: Vec<u32> = (0..=100).collect();
+    v.extend_from_slice(&[255, 256, 257, 284, 285, 65535, 65536, 65537, u32::MAX - 1, u32::MAX]);
+    v
+}
 pub fn months_grid() -> Vec<u32> {
     let mut v: Vec<u32> = (0..=14).collect();
     v.extend_from_slice(&[255, 256, 257, 258, u32::MAX - 1, u32::MAX]);
@@ -220,8 +230,8 @@ pub fn run(ctx: &Ctx) -> (Stats, Report) {
 
     // C: the triple grid
     let ys = years_grid();
-    let ms = months_grid();
-    let ds = days_grid();
+    let ms = if ctx.thorough { months_grid_wide() } else { months_grid() };
+    let ds = if ctx.thorough { days_grid_wide() } else { days_grid() };
     let g = par_sweep(ys.len() as u64, 64, |range, st| {
         for yi in range {
             let y = ys[yi as usize];
